@@ -55,6 +55,11 @@ def gen_case(rng, tier, i):
             wl = L.primary_wavelength(spec) * 1e-3
             dz = float(rng.uniform(-1, 1) * 20 * wl * 2 / u ** 2)
             spec['surfaces'][-2]['t'] = spec['surfaces'][-2]['t'] + dz
+    if rng.random() < 0.08:
+        fm_ = max(f[0] for f in spec['fields'])
+        if fm_ > 0:      # field list dominated by a negative field: the maximum field is the largest |field|
+            spec['fields'] = [[-fm_, 0.0, 0.0], [0.0, 0.0, 0.0], [round(0.5 * fm_, 6), 0.0, 0.0]]
+            info['negfields'] = True
     kind = str(rng.choice(['wavefront', 'wavefront', 'wavefront', 'opd-rms', 'fan', 'vs-field', 'operand']))
     dist = DISTS[int(rng.integers(len(DISTS)))]
     n = int(rng.integers(2, 9)) if dist == 'hexapolar' else int(rng.integers(4, 30))
@@ -122,8 +127,10 @@ def check_case(case, rec):
     lens2 = L.build(spec)      # traced by the oracle
     wl = float(spec['wavelengths'][case['wli']][0])
     kind = case['kind']
-    fmax = max(f[0] for f in spec['fields'])
+    fmax = max(abs(f[0]) for f in spec['fields'])
     Hy = case['Hy'] if fmax > 0 else 0.0
+    if case['info'].get('negfields'):
+        rec.cls('negative-dominant-fields')
     nmed_img = float(np.ravel(lens.surface_group.surfaces[-1].material_post.n(wl))[0])
     n_prev = float(np.ravel(lens.surface_group.surfaces[-1].material_pre.n(wl))[0])
     n_obj = float(np.ravel(lens.surface_group.surfaces[0].material_post.n(wl))[0])
